@@ -62,6 +62,8 @@ type Deviation struct {
 	K        int    `json:"k,omitempty"` // k-th time (Task, N) is the default pick
 	SwitchTo string `json:"switch_to,omitempty"`
 	DelayMs  int    `json:"delay_ms,omitempty"`
+	// StallSteps: the task is passed over for that many scheduler steps (while anybody else can run)
+	StallSteps int `json:"stall_steps,omitempty"`
 }
 
 type Plan struct {
@@ -77,6 +79,7 @@ type Explore struct {
 	Sched     *RNG
 	Fault     *RNG
 	PreemptP  float64
+	StallP    float64
 	DelayP    float64
 	FaultP    float64
 	MaxFaults int
@@ -128,9 +131,11 @@ type World struct {
 	sqlUnsupported      string // first statement the interpreter could not handle (the run is then inconclusive)
 	sqlUnsupportedTaint string
 	parkSeq             int
+	stalledUntil        map[string]int // task key -> scheduler step until which it is passed over
 	recordYields        bool // fault enumeration: remember every yield that admits a fault
 	yields              []YieldSite
 	victims             map[string]int // op id -> how often one of its statements was the victim of an organic deadlock
+	victimTraceIdx      map[string]int // op id -> length of the step trace when it was last a victim
 	lenientReads        bool           // see unmodelled
 	sites               [][3]string    // (task, store call, fault fired or "") for every step at a yield that admits faults
 	mu                  sync.Mutex
@@ -206,6 +211,10 @@ func NewWorld() *World {
 			w.victims = map[string]int{}
 		}
 		w.victims[opIDOf(task)]++
+		if w.victimTraceIdx == nil {
+			w.victimTraceIdx = map[string]int{}
+		}
+		w.victimTraceIdx[opIDOf(task)] = len(w.trace)
 	}
 	w.db.onTaintedCommit = func(reason string) {
 		// called with db.mu held, from the task that commits
@@ -437,6 +446,18 @@ func (w *World) Step() bool {
 	if len(rs) == 0 {
 		return false
 	}
+	// stalled tasks (a slow or paused request) are passed over while anybody else can run
+	if len(w.stalledUntil) > 0 && !w.quiet {
+		var awake []*parkedTask
+		for _, p := range rs {
+			if w.stalledUntil[p.key] <= w.steps {
+				awake = append(awake, p)
+			}
+		}
+		if len(awake) > 0 {
+			rs = awake
+		}
+	}
 	// Lock hand-off: a session that has been waiting for a lock gets it as soon as it is released, before
 	// the releaser (or anybody else) can take it again - PostgreSQL queues waiters first come, first served.
 	// Without this a retried deadlock victim that keeps the baton re-takes its locks before the session it
@@ -476,10 +497,14 @@ func (w *World) Step() bool {
 				}
 				dev.SwitchTo = Pick(w.explore.Sched, others).key
 			}
+			if len(rs) > 1 && w.explore.StallP > 0 && w.explore.Sched.Chance(w.explore.StallP) {
+				// the request stalls (GC pause, slow network hop): everybody else runs for a while
+				dev.StallSteps = 5 + w.explore.Sched.Intn(80)
+			}
 			if w.explore.DelayP > 0 && w.explore.Sched.Chance(w.explore.DelayP) {
 				dev.DelayMs = []int{1, 10, 100, 1000, 5000, 60000}[w.explore.Sched.Intn(6)]
 			}
-			if dev.SwitchTo != "" || dev.DelayMs != 0 {
+			if dev.SwitchTo != "" || dev.DelayMs != 0 || dev.StallSteps != 0 {
 				dev.Task, dev.N, dev.K = chosen.key, chosen.n, k
 				w.recorded.Deviations = append(w.recorded.Deviations, dev)
 				w.devIdx[addr] = &w.recorded.Deviations[len(w.recorded.Deviations)-1]
@@ -492,11 +517,26 @@ func (w *World) Step() bool {
 				// after time passed the runnable set may have changed; recompute but keep the decision
 				rs = w.runnableSet()
 			}
+			stalled := chosen
 			if d.SwitchTo != "" {
 				for _, p := range rs {
 					if p.key == d.SwitchTo {
 						chosen = p
 						break
+					}
+				}
+			}
+			if d.StallSteps > 0 && len(rs) > 1 {
+				if w.stalledUntil == nil {
+					w.stalledUntil = map[string]int{}
+				}
+				w.stalledUntil[stalled.key] = w.steps + d.StallSteps
+				if chosen == stalled {
+					for _, p := range rs {
+						if p != stalled {
+							chosen = p
+							break
+						}
 					}
 				}
 			}
